@@ -379,16 +379,16 @@ def rule_R4(ck):
         a = I.instantiate(SD, [bt, S1, None], {})
         b = I.instantiate(SD, [bt, S2, None], {})
         C = I.module_get("deferred", "Concatenator")
-        c = I.instantiate(C, [bt, [b"abc", a, b"de", b]], {})
+        c = I.instantiate(C, [bt, [b"abc", a, bytearray(b"de"), b]], {})   # .ascii/.asciz hand over a bytearray, the others bytes
         return I.call_method(c, "length", []), I.call_method(a, "length", []), I.call_method(a, "__len__", [])
     ps = I.explore(thunk)
     where = "deferred::Concatenator.length"
-    ck.instance("concat-length", {"length of [3 bytes, sized S1, 2 bytes, sized S2]": repr(ps[0].value[0]) if ps[0].kind == "return" else repr(ps[0].value)}, fn=where)
+    ck.instance("concat-length", {"length of [3 bytes, sized S1, bytearray of 2, sized S2]": repr(ps[0].value[0]) if ps[0].kind == "return" else repr(ps[0].value)}, fn=where)
     if len(ps) != 1 or ps[0].kind != "return":
         raise Unknown(f"length() siblings: {ps}")
     total, sl, ln = ps[0].value
     if total != sym.add(sym.add(S1, S2), 5):
-        ck.violation(where, f"length of a concatenation [3 literal bytes, chunk of size S1, 2 literal bytes, chunk of size S2] is {total!r}, expected S1+S2+5", construct="Concatenator.length", expected="S1+S2+5", found=repr(total))
+        ck.violation(where, f"length of a concatenation [3 literal bytes, chunk of size S1, a 2-byte bytearray (as .ascii produces), chunk of size S2] is {total!r}, expected S1+S2+5", construct="Concatenator.length", expected="S1+S2+5", found=repr(total))
     ck.instance("sized-length", None, fn="deferred::SizedDeferred.length")
     if sl != S1 or ln != S1:
         ck.violation("deferred::SizedDeferred.length", f"a sized chunk of announced size S1 reports length {sl!r} / len {ln!r}", construct="SizedDeferred.length")
@@ -439,7 +439,7 @@ def rule_R6(ck):
             ck.violation(where, f"compile_include does not complete on one path: {ps}", construct="include continuation")
             continue
         code, args = ps[0].value
-        _self, file, start, link_base = args
+        _self, file, start, link_base = args[:4]
         prom = link_base.get("promise") if isinstance(link_base, dict) else None
         if not isinstance(prom, Rec) or start is not prom:
             ck.violation(where, "the included file is not compiled at a fresh promise of its own link base", construct="include start promise")
